@@ -285,12 +285,13 @@ def omegaWhile (update : Arr R α → Arr R α) : Nat → Arr R α → Arr R α 
     else cur
 
 /-- `_get_omega_star` (not overridden by any subclass): the loop is started at
-`(omega_dagger, omega_dagger, 0)` **as coded**, so its condition is false on entry and
-`omega_star = omega_dagger`.  (`stop_gradient` is the identity on values.) -/
+`(omega_dagger, omega_dagger + 1, 0)` — the previous iterate differs from the start value, so the
+fixed-point iteration runs until two iterates agree to `1e-5` or 100 steps are done.
+(`stop_gradient` is the identity on values.) -/
 def baseGetOmegaStar (getOmegaDagger : OmegaDaggerFn α) (update : UpdateFn α) : LbHetFn α :=
   fun be c p y Wi ai =>
   let omegaStar := getOmegaDagger be p Wi
-  let omegaDagger := omegaStar
+  let omegaDagger : Arr _ α := tab fun r => omegaStar r + 1
   omegaWhile (fun om => update be c p y Wi ai om) omegaMaxIter omegaStar omegaDagger
 
 /-- `self._get_omega_star(p_x, y, W_i, a_i)` through the method table -/
